@@ -1,5 +1,6 @@
 import Guard.Model.Report
 import Guard.Properties.C02
+import Guard.Lemmas.Records
 /-
   C09 — the structured report partitions the rules exactly as they were evaluated.
   Theorems about `fileReport` / `reportFailed` (the Lean mirror of `simplified_json_from_root` and
@@ -340,5 +341,32 @@ theorem C09_attribution (name : Str) (s : Status) (msg : Option Str) (ch : List 
 -- Non-vacuity
 example : rulesOnly [.node (.ruleCheck "a".toList .pass none) [], .node (.ruleCheck "b".toList .fail none) []] := by
   intro r hr; simp at hr; rcases hr with rfl | rfl <;> exact ⟨_, _, _, rfl⟩
+
+/-- **what the report partitions is what was evaluated**: the per-rule statuses read off the tree of a successful
+    evaluation are exactly, in file order, (name, status returned by evaluating that rule) for every rule of the
+    file — none missing, none invented, none attributed to another rule. -/
+theorem C09_rule_statuses_are_evaluations (env : Env) (fuel : Nat) (file : RulesFile) (doc : PV) (s : Status) (t : Rec)
+    (h : runFile env fuel file doc = .ok (s, t)) :
+    ∃ sts : List Status, sts.length = file.rules.length ∧
+      ruleStatuses t = (file.rules.zip sts).map fun p => (p.1.name, p.2) := by
+  obtain ⟨sts, hl, _, _, hc⟩ := runFile_top env fuel file doc s t h
+  refine ⟨sts, hl, ?_⟩
+  unfold ruleStatuses
+  -- `filterMap` over the children only looks at their kinds
+  have key : ∀ (cs : List Rec) (ps : List (Rule × Status)),
+      cs.map Rec.kind = ps.map (fun p => RecKind.ruleCheck p.1.name p.2 none) →
+      cs.filterMap (fun r => match r.kind with | .ruleCheck n s _ => some (n, s) | _ => none) = ps.map fun p => (p.1.name, p.2) := by
+    intro cs
+    induction cs with
+    | nil => intro ps hps; cases ps <;> simp_all
+    | cons c cs ih =>
+      intro ps hps
+      cases ps with
+      | nil => simp at hps
+      | cons p ps =>
+        simp only [List.map_cons, List.cons.injEq] at hps
+        simp only [List.filterMap_cons, hps.1, List.map_cons]
+        rw [ih ps hps.2]
+  exact key _ _ hc
 
 end Guard.C09
